@@ -273,8 +273,35 @@ def rule_no_dontcare(ctx):
     ctx.check(not bad and len(users) >= 1, R, "only-in-drop", users[0][1] if users else None, "the error-discarding strategy is used only in PtraceDumper::drop (%d site)" % len(users), "errors are discarded outside Drop: %s" % bad)
 
 
+# functions that implement the best-effort steps (the callees whose Result the soft sites branch on)
+STEP_ROOTS = [PD + "::stop_process", "linux::auxv::AuxvDumpInfo::try_filling_missing_info", PD + "::enumerate_threads", PD + "::enumerate_mappings",
+              PD + "::suspend_thread", PD + "::resume_thread", "linux::dumper_cpu_info::x86_mips::write_cpu_information",
+              "linux::minidump_writer::MinidumpWriter::write_file", "linux::dso_debug::write_dso_debug_stream", "linux::sections::handle_data_stream::write"]
+
+
+def rule_steps_total(ctx):
+    """a best-effort step can only fail softly if it fails by returning: the C02 panic ledgers restricted to what the step
+    functions reach (a panic inside a step unwinds out of dump() instead of becoming a soft error)"""
+    R = "C11/steps-total"
+    from engine import taint as T
+    from rules import c02
+    prog = ctx.prog
+    roots = [r for r in STEP_ROOTS if r in prog.by_short]
+    for r in STEP_ROOTS:
+        if r not in prog.by_short:
+            ctx.violated(R, ("anchor", r.split("::")[-1]), None, "anchor missing: best-effort step function %s" % r)
+    own = prog.reachable(roots)
+    taint = T.Taint(prog, c02.ENTRIES)
+    st = c02.ledger(ctx, taint, R, scope=lambda f: f in own)
+    c02.rule_explicit_panic(ctx, taint, rule=R + "-explicit", scope=lambda f: f in own)
+    ctx.analysed["steps_total"] = {"step_functions": len(roots), "reachable_functions": len(own), "panic_sinks": st}
+    ctx.floor(R, "functions reachable from the best-effort steps", len(own), 30)
+    ctx.floor(R, "panic sinks examined inside best-effort steps", st["total"], 40)
+
+
 def run(ctx):
     rule_soft_sites(ctx)
     rule_subwriter_map(ctx)
     rule_stream_always(ctx)
     rule_no_dontcare(ctx)
+    rule_steps_total(ctx)
